@@ -1158,7 +1158,7 @@ def _never_none(e, known: dict) -> bool:
     """e certainly evaluates to something other than None: numbers, len(..), arithmetic on those, displays, strings"""
     if isinstance(e, ast.Constant):
         return e.value is not None
-    if isinstance(e, (ast.List, ast.Tuple, ast.Dict, ast.Set, ast.ListComp, ast.DictComp, ast.SetComp, ast.GeneratorExp, ast.JoinedStr)):
+    if isinstance(e, (ast.List, ast.Tuple, ast.Dict, ast.Set, ast.ListComp, ast.DictComp, ast.SetComp, ast.GeneratorExp, ast.JoinedStr, ast.Lambda)):
         return True
     if isinstance(e, ast.Call) and isinstance(e.func, ast.Name) and e.func.id in ("len", "int", "str", "bool", "list", "tuple", "dict", "set", "sum", "abs", "repr", "float", "sorted"):
         return True
